@@ -58,6 +58,10 @@ LvAll == {Chr(97), Chr(10), Chr(40), Chr(45), Dot, BolL, EolL, Bref(1), Cls(FALS
 LvLaws == {Chr(97), Chr(98), Dot, Cls(FALSE, <<IC(97), IC(98)>>), BolL, Bref(1)}
 QLaws == {QStar, QPlus, QOpt, QPlusL, Q(0, 0, FALSE, "n"), Q(2, 2, FALSE, "n"), Q(1, 2, FALSE, "n"), Q(2, -1, FALSE, "n"),
           Q(0, 2, TRUE, "n"), Q(1, -1, FALSE, "n")}
+LvOpt == {Chr(97), Chr(65), Chr(10), Chr(49), Dot, BolL, EolL, Cls(FALSE, <<IC(97), IC(49)>>), Cls(TRUE, <<IC(97)>>),
+          Bare(IE("d")), Bare(IE("s"))}
+QOpt8 == {QStar, QPlus, QOpt, QStarL, Q(2, 2, FALSE, "n"), Q(1, 2, FALSE, "n"), Q(2, -1, FALSE, "n"), Q(3, 3, FALSE, "n")}
+FlagsIM == {Fl(i, m, FALSE) : i \in BOOLEAN, m \in BOOLEAN}
 LvAstral == {Chr(66560), Chr(769), Chr(97), Dot, Cls(FALSE, <<IC(66560), IC(97)>>)}
 LvLoop == {Chr(97), Chr(98), BolL, EolL, Bref(1)}
 FlagsM == {NoFlags, Fl(FALSE, TRUE, FALSE)}
